@@ -6,7 +6,9 @@ failpoint (process killed / ENOSPC), the file they leave is read by the real CLI
 status != 0), or its output files are byte-identical to those obtained from the complete file.
 """
 
+import gzip
 import json
+import pickle
 import os
 import shutil
 import subprocess
@@ -197,6 +199,8 @@ def writer_fault_task(task):
             part.inconc("reference CLI run failed: %s" % p.stdout[-500:])
             return None, part
         size = os.path.getsize(ref)
+        with gzip.GzipFile(ref, "rb") as fh:
+            ref_counts = {int(k): len(v["trace"]) for k, v in pickle.load(fh).items()}
         ref_out = {}
         for name, args in (("map", ["map", "-i", ref, "-o", os.path.join(tmp, "m.tsv"), "-t", os.path.join(tmp, "m.nwk")]),):
             q = phyclone_cli(args, cli_env())
@@ -224,19 +228,37 @@ def writer_fault_task(task):
                 if left is None:
                     continue
                 mt, mn = os.path.join(tmp, "c.tsv"), os.path.join(tmp, "c.nwk")
-                for pth in (mt, mn):
-                    if os.path.exists(pth):
-                        os.unlink(pth)
-                q = phyclone_cli(["map", "-i", out, "-o", mt, "-t", mn], cli_env())
-                if q.returncode == 0:
-                    got = open(mt, "rb").read() + open(mn, "rb").read()
-                    if got != ref_out["map"]:
-                        part.violation("map command produced results from a trace whose writer was interrupted",
-                                       {"mode": mode, "cut_at": n, "file_size": size, "left": left})
-                    else:
-                        part.count("cli_read_complete_content")
-                else:
-                    part.count("cli_reader_failed_as_required")
+                # what the file left behind holds, read by the harness itself: chains and entries per chain
+                try:
+                    with gzip.GzipFile(out, "rb") as fh:
+                        left_res = pickle.load(fh)
+                    left_counts = {int(k): len(v["trace"]) for k, v in left_res.items()}
+                except Exception:
+                    left_counts = None
+                for reader, args in (("map", ["map", "-i", out, "-o", mt, "-t", mn]),
+                                     ("consensus", ["consensus", "-i", out, "-o", mt, "-t", mn]),
+                                     ("topology-report", ["topology-report", "-i", out, "-o", mt])):
+                    for pth in (mt, mn):
+                        if os.path.exists(pth):
+                            os.unlink(pth)
+                    q = phyclone_cli(args, cli_env())
+                    part.count("summary_commands_on_failed_writes")
+                    if q.returncode != 0:
+                        part.count("cli_reader_failed_as_required")
+                        continue
+                    if left_counts != ref_counts:
+                        part.violation("%s command produced results from the file left by a failed trace write, which does "
+                                       "not hold the chains and entries the run recorded" % reader,
+                                       {"mode": mode, "cut_at": n, "file_size": size, "left": left,
+                                        "entries_left": left_counts, "entries_recorded": ref_counts})
+                        break
+                    if reader == "map":
+                        got = open(mt, "rb").read() + open(mn, "rb").read()
+                        if got != ref_out["map"]:
+                            part.violation("map command produced results from a trace whose writer was interrupted",
+                                           {"mode": mode, "cut_at": n, "file_size": size, "left": left})
+                            break
+                    part.count("cli_read_complete_content")
         part.sample({"chains": task["chains"], "file_size": size, "cuts": task["cuts"], "modes": task["modes"]})
     except subprocess.TimeoutExpired:
         part.inconc("CLI subprocess watchdog fired")
